@@ -151,11 +151,10 @@ def _write_acc(rng, fs):
 
 
 def _pick_fs(rng, pool=None, writable=False):
-    pool = pool or FS
-    while True:
-        f = rng.choice(pool)
-        if not (writable and f in READ_ONLY):
-            return f
+    pool = list(pool or FS)
+    if writable:
+        pool = [f for f in pool if f not in READ_ONLY] or ["w2"]
+    return rng.choice(pool)
 
 
 def _scalar(rng):
